@@ -337,7 +337,7 @@ func c11Check(c *eng.Case) *eng.Outcome {
 				o.V(fmt.Sprintf("maporder:%s:%s", strings.Join(sites, "+"), diffField(ref, key)),
 					"result depends on map iteration order at %v (choices %v): %s; %s", sites, ch.Choices, firstDiff(ref, key), c.Get("doc"))
 			}
-		}, func(ch *eng.Chooser) bool { return len(o.Viol) == 0 }, nil)
+		}, func(ch *eng.Chooser) bool { return len(o.Viol) == 0 }, eng.TimeUp)
 		if err != nil {
 			o.Viol = nil
 			o.Skipped = "explorer: " + err.Error()
